@@ -9,8 +9,10 @@ def run(res, args):
     res.rule = ("segment streams as in C03 with one victim frame at every position; corruption = single bits, bursts, byte "
                 "overwrites, forced 0xD3 insertion, in payload and CRC (leader untouched, CRC mismatch guaranteed); thorough: every "
                 "single-bit corruption of every frame of 5-frame streams; the oracle is the segment list with the victim as "
-                "non-RTCM; non-trivial = the victim has at least one neighbour")
-    res.assumptions = ["time fields of MSM messages are projected away"]
+                "non-RTCM, and every later frame's full report (times included) must equal the run with the victim's slot "
+                "zeroed; non-trivial = the victim has at least one neighbour")
+    res.assumptions = ["the segment oracle compares (type, raw bytes); the times of the frames after the victim are compared with a run in "
+                       "which the victim's slot holds zero bytes"]
     res.trusted = ["harness: cmd/impl stream; ocaml driver stream", "extraction: ExtrOcamlBasic only"]
     ok = common.step_A(res)
     if not ok:
@@ -26,8 +28,16 @@ def run(res, args):
         if not frames:
             continue
         v = rng.choice(frames)
-        mode = rng.choice(["bit", "burst", "byte", "d3", "crc"])
-        bad = gen.corrupt(rng, segs[v][1], mode)
+        mode = rng.choice(["bit", "burst", "byte", "d3", "crc", "ts"])
+        if mode == "ts" and len(segs[v][1]) >= 16:
+            # a flipped bit in what would be an MSM timestamp (frame bits 48..77)
+            g = bytearray(segs[v][1])
+            bit = rng.randint(48, 77)
+            g[bit // 8] ^= 0x80 >> (bit % 8)
+            bad = bytes(g)
+        else:
+            mode = "bit" if mode == "ts" else mode
+            bad = gen.corrupt(rng, segs[v][1], mode)
         tail = b""
         if rng.random() < 0.2:
             f = gen.rand_frame(rng, small=True)
@@ -42,10 +52,14 @@ def run(res, args):
                     g = bytearray(f)
                     g[bit // 8] ^= 0x80 >> (bit % 8)
                     items.append((segs, v, bytes(g), b"", "everybit"))
-    cases, exps = [], []
+    cases, exps, blanked = [], [], []
     for segs, v, bad, tail, mode in items:
         stream = b"".join(bad if i == v else b for i, (k, b) in enumerate(segs)) + tail
         cases.append("stream %d debug %s" % (framing.T0, gen.hx(stream)))
+        # the same stream with the victim's slot filled with zero bytes (no frame, no 0xD3): a corrupted frame must leave
+        # nothing behind, so every frame after it is reported in full - times included - as in this stream
+        blank = b"".join(bytes(len(bad)) if i == v else b for i, (k, b) in enumerate(segs)) + tail
+        blanked.append("stream %d debug %s" % (framing.T0, gen.hx(blank)))
         # expected: as without the corruption, but the victim is a non-RTCM message with its (corrupted) bytes,
         # delivered alone (it is not merged with neighbouring junk: it starts with 0xD3 and is consumed by its length)
         exp = []
@@ -60,6 +74,23 @@ def run(res, args):
             exp.append((-1, tail.hex()))
         exps.append(exp)
     impl, model = framing.run_both(res, "stream", cases, timeout=3000)
+    bl, eb = common.run_lines(common.IMPL_BIN, "stream", blanked, timeout=3000)
+    if eb or bl is None or len(bl) != len(cases):
+        res.corr_ok = False
+        res.corr_notes.append("stream runner failed on the blanked streams: %s" % eb)
+        bl = None
+    if impl and bl:
+        for (segs, v, bad, tail, mode), c, line, bline in zip(items, cases, impl, bl):
+            a, b = framing.parse_stream_obs(line), framing.parse_stream_obs(bline)
+            if a is None or b is None:
+                continue
+            ta = [(m["type"], m["raw"], m["emsg"], m["ts"], m["sent"], m["sow"]) for m in a if m["type"] >= 0]
+            tb = [(m["type"], m["raw"], m["emsg"], m["ts"], m["sent"], m["sow"]) for m in b if m["type"] >= 0]
+            if ta != tb:
+                k = next((i for i in range(min(len(ta), len(tb))) if ta[i] != tb[i]), min(len(ta), len(tb)))
+                res.add_violation(dict(stream=c.split()[3], victim_index=v, corrupted=bad.hex(), first_differing_frame=k,
+                                       with_corrupted_victim=ta[k:k + 1], with_victim_slot_blank=tb[k:k + 1]),
+                                  "a frame after the corrupted one is reported differently (times included) than if the corrupted frame's bytes carried nothing")
     if impl:
         for (segs, v, bad, tail, mode), c, exp, line in zip(items, cases, exps, impl):
             res.evaluations += 1
